@@ -700,7 +700,6 @@ def _dot_csr_csr_type(dt1, dt2):
         for i in range(n_row):
             head = -2
             length = 0
-            next_[:] = -1
             for j, av in zip(  # noqa: B905
                 a_indices[a_indptr[i] : a_indptr[i + 1]],
                 a_data[a_indptr[i] : a_indptr[i + 1]],
@@ -972,7 +971,6 @@ def _dot_coo_coo_type(dt1, dt2):
         for i in range(n_row):
             head = -2
             length = 0
-            next_[:] = -1
             for j, av in zip(  # noqa: B905
                 a_coords[1, a_indptr[i] : a_indptr[i + 1]],
                 a_data[a_indptr[i] : a_indptr[i + 1]],
